@@ -413,26 +413,20 @@ def rule_allsources(ctx, rep, rid="R-C03-allsources"):
         return
     b = rb[0]
     from vlib.mir import switch_info
-    ext = [c for c in b.calls() if c.callee == "ironplc_dsl::common::Library::extend"]
-    nxt = [c for c in b.calls() if (c.callee or "").endswith("Iterator>::next") and any(c.bb in b.reachable(e.target) for e in ext if e.target is not None)]
+    from vlib import units
+    ext = [(bd, c) for bd, c, site in units.calls_in_unit(ctx, b) if c.callee == "ironplc_dsl::common::Library::extend"]
     where = "%s:%d" % (b.f["file"], b.f["line"])
-    if len(ext) != 1 or not nxt:
-        r.finding("resolve_types|shape", where, "expected one Library::extend inside a loop over the sources")
+    if len(ext) != 1:
+        r.finding("resolve_types|shape", where, "expected one Library::extend in resolve_types and its closures, found %d" % len(ext))
         return
-    loop_next = nxt[0]
-    si = switch_info(b, loop_next.target) if loop_next.target is not None else None
-    ok = False
-    if si and si["kind"] == "disc":
-        for succ, labs in si["edges"].items():
-            if labs == ["Some"]:
-                # from the Some edge, can we get back to the loop's next() without passing the extend block?
-                back = b.reachable(succ, avoid={ext[0].bb})
-                ok = loop_next.bb not in back
+    bd, c = ext[0]
+    ok, how = units.visits_every_item(ctx, b, bd, c)
+    # ... and what is iterated is the `sources` parameter itself
     rule_extend_whole(ctx, r)
     if ok:
-        r.ok("resolve_types|every iteration extends", loc_str(b.f, ext[0].loc))
+        r.ok("resolve_types|every iteration extends", loc_str(bd.f, c.loc), how)
     else:
-        r.finding("resolve_types|skippable-source", loc_str(b.f, ext[0].loc), "an iteration of the loop over the sources can continue without merging that library: its declarations (and its errors) vanish")
+        r.finding("resolve_types|skippable-source", loc_str(bd.f, c.loc), "a source library can be passed over without being merged (%s): its declarations (and its errors) vanish" % how)
 
 
 FILTERING = {"filter", "filter_map", "retain", "retain_mut", "dedup", "dedup_by", "dedup_by_key", "take", "skip", "take_while", "skip_while",
